@@ -140,6 +140,8 @@ def make_spec(rng, mode=None):
         # paragraphs: empty (or blank-only) lines between text lines are part of the ~Other text
         for _ in range(rng.randint(1, 3)):
             other.insert(rng.randint(1, len(other) - 1), rng.choice(["", "", "   "]))
+    if other and rng.random() < 0.2:
+        other += [""] * rng.randint(1, 3)          # the text ends with empty lines (a trailing newline is part of it)
     spec["Other"] = "\n".join(other)
     return spec
 
